@@ -99,6 +99,11 @@ var catalogue = []perturb{
 	{"nonce+1", "reject", "reject", func(c Case, x *kdc.ReplyCtx, p int64) { x.Enc["nonce"] = x.Enc["nonce"].(int64) + 1 }},
 	{"nonce-1", "reject", "reject", func(c Case, x *kdc.ReplyCtx, p int64) { x.Enc["nonce"] = x.Enc["nonce"].(int64) - 1 }},
 	{"nonce-stale", "reject", "reject", func(c Case, x *kdc.ReplyCtx, p int64) { x.Enc["nonce"] = p }},
+	// the request's nonce plus or minus a multiple of 2^32: another INTEGER (one that needs more octets), not the same nonce
+	{"nonce-plus-2-32", "reject", "reject", func(c Case, x *kdc.ReplyCtx, p int64) { x.Enc["nonce"] = x.Enc["nonce"].(int64) + 1<<32 }},
+	{"nonce-minus-2-32", "reject", "reject", func(c Case, x *kdc.ReplyCtx, p int64) { x.Enc["nonce"] = x.Enc["nonce"].(int64) - 1<<32 }},
+	{"nonce-plus-2-40", "reject", "reject", func(c Case, x *kdc.ReplyCtx, p int64) { x.Enc["nonce"] = x.Enc["nonce"].(int64) + 1<<40 }},
+	{"nonce-plus-256", "reject", "reject", func(c Case, x *kdc.ReplyCtx, p int64) { x.Enc["nonce"] = x.Enc["nonce"].(int64) + 256 }},
 	{"cname-other", "reject", "reject", func(c Case, x *kdc.ReplyCtx, p int64) { x.Rep["cname"] = otherName() }},
 	{"cname-extra-component", "reject", "reject", func(c Case, x *kdc.ReplyCtx, p int64) {
 		x.Rep["cname"] = der.Name(1, append(mint.Name(c.client()), "root")...)
